@@ -1068,6 +1068,13 @@ pub(crate) fn diff_state(before: &WarpState, after: &WarpState) -> Vec<WarpOp> {
         let Some(root_record) = child_store.node(&inst_after.root_node) else {
             continue;
         };
+        // `OpenPortal` replays before every skeleton edit of the tick and requires its owner
+        // to exist at that point. When the owner node/edge is itself created by this tick,
+        // keep the plain `UpsertWarpInstance` + `SetAttachment` form, which replays after the
+        // owner has been upserted (the portal invariants are validated at the end either way).
+        if validate_attachment_owner_exists(before, &parent_key).is_err() {
+            continue;
+        }
         ops.push(WarpOp::OpenPortal {
             key: parent_key,
             child_warp: *warp_id,
